@@ -85,6 +85,9 @@ def parseOp (j : Json) : AOp :=
   | Json.str "set" :: k :: v :: _ => .set (asStr k) (asInt v)
   | Json.str "reset" :: _ => .reset
   | Json.str "get" :: _ => .get
+  -- the same operations through the real `StatsClient` (request, reply framing and JSON decoding included)
+  | Json.str "scget" :: _ => .get
+  | Json.str "screset" :: _ => .reset
   | Json.str "cget" :: _ => .cget
   | Json.str "creset" :: _ => .creset
   | _ => .nop
